@@ -350,7 +350,7 @@ pub fn main_for(prop: Arc<dyn Property>, args: &Args) -> i32 {
     }
     let mut g = agg.lock().unwrap();
     if !g.harness_errors.is_empty() {
-        for e in &g.harness_errors {
+        for e in g.harness_errors.iter().take(3) {
             println!("HARNESS-ERROR property={id} {e}");
         }
         return 2;
